@@ -25,6 +25,9 @@ CHECKS = {
  "C10": dict(level="exploration", technique="round-trip monitor per registered variable type + launch-image monitor (prep_env_subproc dict and real `env -0` children) against an independent rendering after random env histories",
    text="Every registered variable with a typed validator gets generated valid values and must survive detype -> Env(...) -> typed; histories of set/del/in-place mutation (fresh read and held reference)/swap/`$K=v cmd`/UPDATE_OS_ENVIRON toggles/detype reads are interleaved with launches and the mapping handed to the child (and printed by a real child) is compared with a 10-line independent rendering computed after the system's answer.",
    note="Untyped (always_true) variables are not judged for round trip; validators without a generator are counted in evidence; only the harness' tracked variables are compared in launch images.", ref="§2 C10"),
+ "C04": dict(level="exploration", technique="argv recorder monitor (callable aliases + hex-dumping real child) with generator-side expected values",
+   text="~54k deliveries per quick run: hostile strings through @() forms, every literal kind, f-strings, macro text, @$() re-splitting and the documented $VAR/~ expansion, in first/middle/last position, observed by a threaded alias, an unthreadable alias, a real child, a real child after a pipe and an alias inside $(); the recorded argv must equal the value CPython assigns to the literal / the injected object, and both delivery paths must agree.",
+   note="Non-raw literals containing $ or ~ are judged only in the documented-expansion class; glued pre@(v)post uses metacharacter-free values; macro texts exclude comments and trailing backslashes (line structure, not text).", ref="§2 C04"),
 }
 NOT_BUILT = "check not built yet in this session (planned, see DESIGN.md §2); nothing is claimed for it"
 def main():
